@@ -27,7 +27,7 @@ PROFILES = {
     "C07": dict(mc=[("F2tier", 2, 2, 1)], mc_thorough=[("F2tier", 2, 2, 2), ("F2unit", 2, 2, 1), ("N1fix", 2, 2, 3), ("F2fix", 2, 3, 1)],
                 gen=dict(nops=14, p_custom=0.3, same_sec=True, penny=True, zero_outlay=0.3, daytrade=0.1), n=(240, 4000), lazy=0.2),
     "C08": dict(mc=[("F2unit", 2, 2, 1)], mc_thorough=[("F2unit", 2, 2, 2), ("F2zero", 3, 2, 1), ("N1zero", 2, 2, 3), ("F2fix", 2, 3, 1)],
-                gen=dict(nops=14, p_redundant=0.4, p_unsettled=0.15, same_sec=True, p_custom=0.2, daytrade=0.2), n=(240, 4000), lazy=0.3),
+                gen=dict(nops=14, p_redundant=0.4, p_unsettled=0.15, same_sec=True, p_custom=0.2, daytrade=0.2, reopen=0.25), n=(240, 4000), lazy=0.3),
     "C17": dict(mc=[("FIzero", 2, 2, 1)], mc_thorough=[("FIzero", 2, 3, 1), ("FIfix", 2, 2, 2), ("FIzero", 3, 2, 1)],
                 gen=dict(nops=14, trees=["FI3", "FI4", "FIN"], fund_subs=False), n=(240, 4000), lazy=0.0),
     "C16": dict(mc=[("F2zero", 2, 2, 2)], mc_thorough=[("F2zero", 2, 3, 2), ("N1zero", 2, 2, 2), ("F2fix", 2, 2, 2), ("F2zero", 3, 2, 2)],
@@ -146,6 +146,10 @@ def _run_pair(args):
     ckw = {k: v for k, v in kw.items() if k in ("tree", "T", "comm", "spread", "integer", "late", "crash", "D", "zerodip", "penny")}
     gkw = {k: v for k, v in kw.items() if k in treegen.GEN_KEYS}
     gkw["p_unsettled"] = 0.0
+    gkw["reopen"] = 0.4
+    ckw.setdefault("tree", rng.choice(["F2", "F3", "F3", "N1", "S2", "N2"]))
+    if rng.random() < 0.7:
+        ckw.setdefault("spread", rng.choice([2, 4]))  # bid/offer accounting on: more state to keep consistent
     C = treegen.make_C(rng, **ckw)
     g = treegen.HistoryGen(rng, C, **gkw)
     lazy = rng.random() < lazy_p
